@@ -45,6 +45,7 @@ Check C17_vte_pre : forall p,
   (vst p <> Ground -> vst p <> DcsPassthrough -> vst p <> OscString -> ris_pre p = []).
 Print Assumptions C17_vte_pre.
 Check C17_process : forall p q,
+  pend p = [] ->
   pwf (vt p) -> process p [27; 99] = Ok q ->
   let s0 := fresh_screen (grows (g (scr p))) (gcols (g (scr p))) (sb_cap (g (scr p))) in
   screen_new (grows (g (scr p))) (gcols (g (scr p))) (sb_cap (g (scr p))) = Ok s0 /\
@@ -55,24 +56,28 @@ Check C17_events_nil : forall v,
   ris_pre v = [] \/ ris_pre v = [AUnhook] -> ris_events v = [].
 Print Assumptions C17_events_nil.
 Check C17_callbacks_untouched : forall p q,
+  pend p = [] ->
   pwf (vt p) -> vst (vt p) = Ground -> partial (vt p) = [] ->
   process p [27; 99] = Ok q -> log q = log p.
 Print Assumptions C17_callbacks_untouched.
-Check C17_total : forall p, pwf (vt p) -> 1 <= grows (g (scr p)) ->
+Check C17_total : forall p, pend p = [] -> pwf (vt p) -> 1 <= grows (g (scr p)) ->
   process p [27; 99] =
   Ok (mkParser p_init (fresh_screen (grows (g (scr p))) (gcols (g (scr p))) (sb_cap (g (scr p))))
-               (log p ++ ris_events (vt p)) (resizing p)).
+               (log p ++ ris_events (vt p)) (resizing p) []).
 Print Assumptions C17_total.
 Check C17_ok : forall p, parser_ok p -> exists q, process p [27; 99] = Ok q /\ parser_ok q.
 Print Assumptions C17_ok.
-Check C17_log_prefix_ok : forall ops v s l rz v' s' l' rz',
-  Parser.run (mkParser v s l rz) ops = Ok (mkParser v' s' l' rz') <->
-  exists e, Parser.run (mkParser v s [] rz) ops = Ok (mkParser v' s' e rz') /\ l' = l ++ e.
+Check C17_any : forall p q, parser_ok p -> process p [27; 99] = Ok q -> vt q = p_init /\ pend q = [].
+Print Assumptions C17_any.
+Check C17_log_prefix_ok : forall ops v s l rz pd v' s' l' rz' pd',
+  Parser.run (mkParser v s l rz pd) ops = Ok (mkParser v' s' l' rz' pd') <->
+  exists e, Parser.run (mkParser v s [] rz pd) ops = Ok (mkParser v' s' e rz' pd') /\ l' = l ++ e.
 Print Assumptions C17_log_prefix_ok.
-Check C17_log_prefix_panic : forall ops v s l rz k,
-  Parser.run (mkParser v s l rz) ops = Panic k <-> Parser.run (mkParser v s [] rz) ops = Panic k.
+Check C17_log_prefix_panic : forall ops v s l rz pd k,
+  Parser.run (mkParser v s l rz pd) ops = Panic k <-> Parser.run (mkParser v s [] rz pd) ops = Panic k.
 Print Assumptions C17_log_prefix_panic.
 Check C17_main : forall p q,
+  pend p = [] ->
   pwf (vt p) -> process p [27; 99] = Ok q ->
   exists pf,
     parser_new (grows (g (scr p))) (gcols (g (scr p))) (sb_cap (g (scr p))) (resizing p) = Ok pf /\
@@ -89,6 +94,7 @@ Print Assumptions C17_main.
 Check C17_reachable : forall r c cap rz ops p0 p,
   1 <= r <= MAXDIM -> 1 <= c <= MAXDIM ->
   parser_new r c cap rz = Ok p0 -> Forall op_ok ops -> Parser.run p0 ops = Ok p ->
+  pend p = [] ->
   exists q pf,
     process p [27; 99] = Ok q /\
     parser_new (grows (g (scr p))) (gcols (g (scr p))) (sb_cap (g (scr p))) (resizing p) = Ok pf /\
